@@ -379,8 +379,14 @@ impl Pattern {
                     current_pattern.push_str(s);
                 }
                 PatternPiece::Literal(s) => {
+                    // Quote every character that means something to the pattern grammar.
+                    // Besides the regex-special ones these are `!` (negation, `!(`), `-`
+                    // (ranges), `@` (`@(`) and `:` (`[:class:]`); a backslash makes the
+                    // grammar take them literally, inside and outside bracket expressions.
                     for c in s.chars() {
-                        if crate::regex::regex_char_is_special(c) {
+                        if crate::regex::regex_char_is_special(c)
+                            || matches!(c, '!' | '-' | '@' | ':')
+                        {
                             current_pattern.push('\\');
                         }
                         current_pattern.push(c);
